@@ -32,6 +32,11 @@ def project_list(tier):
     out.append(("ext:o", ("f_prodcons", {"consumer": "amend_first"}), "o.txt"))
     out.append(("ext:extra", ("f_amend", {"extra": "static"}), "extra.txt"))
     out.append(("ext:tree", ("f_treeamend", {}), "t/x.txt"))
+    # a second build after two simultaneous edits: the source of the chain and its last output
+    out.append(("chain:two-edits", ("f_chain", {"__edits__": [("write", "src.txt", "edited source\n"),
+                                                              ("remove", "c.txt")]}), None))
+    out.append(("chain:edit+touch-out", ("f_chain", {"__edits__": [("write", "src.txt", "edited source\n"),
+                                                                   ("write", "c.txt", "user\n")]}), None))
     return out
 
 
@@ -54,13 +59,28 @@ def env_events_for(ext, ties):
 
 
 def _run(spec, prefix):
+    import hashlib
+
     fam, knobs = spec["proj"]
+    knobs = dict(knobs)
+    edits = knobs.pop("__edits__", None)
     files = getattr(projects, fam)(**knobs)
     w = fresh_world(files)
     cfg = {"njob": spec["njob"], "env_events": env_events_for(spec["ext"], spec["ties"]),
-           "on_start": on_start, "exit_gate": spec.get("exit_gate", False)}
+           "on_start": on_start, "exit_gate": spec.get("exit_gate", False) or bool(edits)}
+    if edits:
+        session(w, {"njob": spec["njob"]}, ())
+        for op in edits:
+            if op[0] == "write":
+                w.write(op[1], op[2])
+            else:
+                w.remove(op[1])
+    initial = {}
+    for rel, val in w.fs_state().items():
+        if val != "dir":
+            initial[rel] = hashlib.sha256(w.read(rel)).hexdigest()
     obs = session(w, cfg, prefix)
-    obs.initial = {k: v for k, v in files.items()}
+    obs.initial_digests = initial
     w.destroy()
     return obs
 
@@ -90,9 +110,8 @@ def content_history(obs):
     import hashlib
 
     hist = {}
-    for path, content in obs.initial.items():
-        if content is not None and not path.endswith("/"):
-            hist[path] = [(0, hashlib.sha256(content.encode()).hexdigest())]
+    for path, dg in obs.initial_digests.items():
+        hist[path] = [(0, dg)]
     for rec in obs.log:
         if rec[1] == "write":
             hist.setdefault(rec[3], []).append((rec[0], rec[4]))
